@@ -53,7 +53,7 @@ func zvC20Alphabet(addPath bool) []zvC20Msg {
 				}
 				idVariants := [][]uint32{nil}
 				if addPath {
-					idVariants = [][]uint32{{1, 2, 3}, {2, 2, 2}, {3, 1, 2}}
+					idVariants = [][]uint32{{1, 2, 3}, {2, 2, 2}, {3, 1, 2}, {0, 1, 2}, {1, 0, 0}} // 0 is a valid path identifier
 				}
 				for _, ids := range idVariants {
 					m := zvC20Msg{Fam: fam, Announce: set, MED: med}
@@ -74,7 +74,7 @@ func zvC20Alphabet(addPath bool) []zvC20Msg {
 		for _, wd := range [][]int{{0}, {0, 1}, {2}} {
 			idVariants := [][]uint32{nil}
 			if addPath {
-				idVariants = [][]uint32{{1, 2}, {2, 1}, {3, 3}}
+				idVariants = [][]uint32{{1, 2}, {2, 1}, {3, 3}, {0, 1}, {1, 0}}
 			}
 			for _, ids := range idVariants {
 				m := zvC20Msg{Fam: fam, Withdraw: wd}
